@@ -190,7 +190,13 @@ def gen_case(rng, tier, kind=None):
             n = nc * 2 + rng.randint(d + 3, d + 20)
         rs = np.random.RandomState(rng.getrandbits(32))
         mix = rs.randn(d, d) + 2 * np.eye(d)
-        X = sig6(rs.randn(n, d) @ mix * 10.0 ** rng.uniform(-1, 1) + rs.uniform(-2, 2, size=d))
+        X = rs.randn(n, d) @ mix * 10.0 ** rng.uniform(-1, 1) + rs.uniform(-2, 2, size=d)
+        if rng.random() < 0.12:
+            # features with a large offset relative to their spread (raw counts, timestamps):
+            # harmless for a two-pass covariance, fatal for a one-pass one
+            X = X + 10.0 ** rng.uniform(3, 6) * (np.abs(X).std() + 1e-9) * rs.choice([-1, 1], size=d)
+            case["large_offset"] = True
+        X = np.asarray([[float(f"{v:.12g}") for v in row] for row in X])
         case.update(X=L(X), chunks=_gen_chunks(rng, n, many=huge), cfg={"pinv": rng.random() < 0.15})
         if nc > 16:  # the per-class Dask graph is large: keep the number of blocks small
             case["chunks"] = random_composition(rng, n, rng.randint(1, 6))
@@ -570,6 +576,7 @@ def run_case(case, replay=None):
     rec.probe("uneven_blocks", nblocks > 1 and max(case["chunks"]) >= 5 * min(case["chunks"]))
     rec.probe("feature_chunked", bool(case.get("fchunks")))
     rec.probe("unknown_chunk_sizes", bool(case.get("nan_mask")))
+    rec.probe("large_offset_features", bool(case.get("large_offset")))
     rec.probe("lazy_expression_input", bool(case.get("lazy_expr")))
     rec.probe("refit_through_same_named_array", bool(case.get("same_name")))
     rec.probe("mode_" + case["sched"]["mode"])
